@@ -242,8 +242,8 @@ Theorem C01_jparse_jdump : forall t fuel rest, tsize t <= fuel -> jparse_val fue
 Proof. exact jparse_jdump. Qed.
 Print Assumptions C01_jparse_jdump.
 
-Theorem C01_jload_jdump : forall t w, forallb jws w = true -> jload (jdump t ++ w) = Some t.
-Proof. exact jload_jdump_ws. Qed.
+Theorem C01_jload_jdump : forall t w1 w2, forallb jws w1 = true -> forallb jws w2 = true -> jload (w1 ++ jdump t ++ w2) = Some t.
+Proof. exact jload_jdump_ws2. Qed.
 Print Assumptions C01_jload_jdump.
 
 (* reading the characters of a written file is reading its content, for every format (for SJSON: parse the bytes) ... *)
